@@ -21,17 +21,18 @@ LEVEL_TEXT = ("Machine-checked Coq theorems (one dot/link/box per label in order
               "stubs in layer order without a second move and ends at the middle of the axis-facing edge of the box, exactly "
               "before and within 1 unit after %i truncation; box size = datum size + padding with the left/right swap; ticks at "
               "their positions with their texts) on Gallina models of renderer.py and both emitters of timeline.py, tied to the "
-              "code by differential execution of both exports on every run. The affine-scale clause is proved over an abstract "
-              "affine scale (C07_affine_partial); the scale itself is verified by the scale/time packages (C12, C15).")
+              "code by differential execution of both exports on every run. The affine-scale clause (C07_affine) is proved on the axis-pipeline "
+              "model coq/Render/Axis.v (parse_items, init_axis with nice(), scale(time), ticks) composed from the scale and time "
+              "packages; that model is tied to the code by the C11 check.")
 LEVEL_NOTE = ("Trusted: Coq kernel; extraction re-checked on a slice by vm_compute; the correspondence harness (SVG/TikZ parsers, "
               "generators; integers and strings exact; %f/%.16f decimals digit for digit, %.8f digit for digit when all sizes are "
-              "dyadic and else to the printed precision; str() numbers to relative 1e-9). Partial: scale(time) and tickFormat "
-              "are inputs of this model (abstract affine scale in C07_affine_partial); the digit string of str() is not "
-              "modelled, only its value. Hypothesis of C07_link_end: for direction up the label is as thick as the "
+              "dyadic and else to the printed precision; str() numbers to relative 1e-9). scale(time) and tickFormat are inputs of THIS tie (the document model); "
+              "the map time -> position is the axis-pipeline model of C07_affine, tied by ./check C11; tick TEXTS are checked "
+              "by the oracle only; the digit string of str() is not modelled, only its value. Hypothesis of C07_link_end: for direction up the label is as thick as the "
               "layer (C07_thickness_uniform proves it for explicit widths). Modelled, not verified: labella/*.py; doubles as "
               "exact rationals (truncations within 1e-7 of an integer on non-dyadic inputs are counted as ambiguous).")
 TECHNIQUE = "Coq proof (induction on the stub chain and on the label list; linear arithmetic over Q) + model/implementation correspondence on parsed SVG and TikZ"
-ASSUMPTIONS = ["scale is affine and increasing on the domain (hypothesis of C07_affine_partial; properties C12/C15)",
+ASSUMPTIONS = ["tick texts (tickFormat) are not modelled: checked by the property oracle on every case",
                "direction up: every label is as thick as the layer (proved for explicit widths by C07_thickness_uniform)"]
 
 impl = rc.impl
